@@ -111,6 +111,13 @@ class LoopSpec:
     def on_exit(self, I, fr, n):
         pass
 
+    # invariants with universally quantified parts override these two instead of `invariant`
+    def assume_inv(self, I, fr, k):
+        ctx().assume(self.invariant(I, fr, k))
+
+    def oblige_inv(self, what, I, fr, k):
+        self._oblige(what, self.invariant(I, fr, k))
+
     # ---- engine -------------------------------------------------------------------------------------
     def _havoc_locals(self, st, fr):
         body = st.body if hasattr(st, "body") else []
@@ -135,7 +142,7 @@ class LoopSpec:
         if n is None:
             n = len(I.concrete_iter(it, "loop with spec"))
         self.setup(I, fr)
-        self._oblige("inv.init", self.invariant(I, fr, 0))
+        self.oblige_inv("inv.init", I, fr, 0)
         phase = c.fresh(f"phase_{self.name}", "Bool")
         if c.decide(phase):
             # arbitrary iteration
@@ -146,7 +153,7 @@ class LoopSpec:
             ks = Sym(k)
             self._havoc_locals(st, fr)
             self.havoc(I, fr, ks)
-            c.assume(self.invariant(I, fr, ks))
+            self.assume_inv(I, fr, ks)
             if assign_target is not None:
                 assign_target(I.iter_at(it, ks))
             else:
@@ -163,14 +170,14 @@ class LoopSpec:
             except ContinueSig:
                 pass
             self.on_iteration_end(I, fr, ks)
-            self._oblige("inv.preserved", self.invariant(I, fr, S.add(ks, 1)))
+            self.oblige_inv("inv.preserved", I, fr, S.add(ks, 1))
             self.vc.path_end_checks()
             raise PathAbort("loop body path")
         # exit path
         self._havoc_locals(st, fr)
         self.havoc(I, fr, n)
         c.assume(S.cmp(">=", n, 0))
-        c.assume(self.invariant(I, fr, n))
+        self.assume_inv(I, fr, n)
         self.on_exit(I, fr, n)
         return "exit"
 
@@ -203,13 +210,13 @@ class LoopSpec:
         c = ctx()
         from .interp import BreakSig, ContinueSig
         self.setup(I, fr)
-        self._oblige("inv.init", self.invariant(I, fr, 0))
+        self.oblige_inv("inv.init", I, fr, 0)
         k = c.fresh("k_" + self.name.replace(".", "_"), "Int")
         c.defs.append(k >= 0)
         ks = Sym(k)
         self._havoc_locals(st, fr)
         self.havoc(I, fr, ks)
-        c.assume(self.invariant(I, fr, ks))
+        self.assume_inv(I, fr, ks)
         cond = I.truth(I.eval(st.test, fr))
         if not cond:
             self.on_exit(I, fr, ks)
@@ -223,6 +230,6 @@ class LoopSpec:
         except ContinueSig:
             pass
         self.on_iteration_end(I, fr, ks)
-        self._oblige("inv.preserved", self.invariant(I, fr, S.add(ks, 1)))
+        self.oblige_inv("inv.preserved", I, fr, S.add(ks, 1))
         self.vc.path_end_checks()
         raise PathAbort("loop body path")
